@@ -101,6 +101,20 @@ def default_actions(rng, mode, ns):
     return acts, ident
 
 
+def eager_actions(rng, mode, ns):
+    """an application that offers a new ASDU to the master in EVERY round (it is accepted only when the link layer is ready),
+    so that a hand-over falls into every acknowledgement-timeout window"""
+    acts, ident = {}, 1
+    for r in range(12, 40):
+        for i in range(ns):
+            acts.setdefault(r, []).append("msend s%d %s" % (i + 1, hx(L.asdu(ident, 4 + (r % 5), typ=45, cot=6))))
+            ident += 1
+        if r % 6 == 0:
+            acts.setdefault(r, []).append("enq%d s1 %s" % (1 + (r & 1), hx(L.asdu(ident, 3))))
+            ident += 1
+    return acts, ident
+
+
 def run(ck):
     quick = ck.tier == "quick"
     rng = core.Rng(ck.seed)
@@ -151,10 +165,12 @@ def run(ck):
     cfgs = [("bal", 1, 0, 1), ("bal", 1, 1, 1), ("unb", 1, 0, 1), ("unb", 1, 1, 2)] if quick else \
            [(m, al, sc, n) for m in ("bal", "unb") for al in (1, 2) for sc in (0, 1) for n in ((1,) if m == "bal" else (1, 2, 3))]
     scripts, meta = [], {}
-    for mode, al, sc, ns in cfgs:
-        acts, nid = default_actions(rng, mode, ns)
+    for mode, al, sc, ns, eager in [c + (e,) for c in cfgs for e in (False, True)]:
+        if eager and quick and (al, sc) != (1, 0) and mode == "bal":
+            continue
+        acts, nid = (eager_actions if eager else default_actions)(rng, mode, ns)
         rounds, tick = 70, 70
-        tag = "%s.%d.%d.%d" % (mode, al, sc, ns)
+        tag = "%s.%d.%d.%d%s" % (mode, al, sc, ns, ".eager" if eager else "")
         base = L.exchange(mode, al, sc, ns, acts, rounds, tick, marks=True)
         n = L.frames_in(runner.run_batch(hcs, [("b", base)])["b"]["out"])
 
@@ -172,8 +188,10 @@ def run(ck):
         for _ in range(60 if quick else 600):
             a = rng.range(1, n)
             add("double", [a, rng.range(a + 1, min(n + 6, a + 12))])
-        for k in range(1, n + 1, 2 if quick else 1):
-            add("dup-primary", dup=[k])
+        if not eager:   # a duplicated primary frame is answered twice; with an application that sends at once the second (unnumbered)
+                        # acknowledgement is taken for the answer to the NEXT frame: outside what 60870-5-2 can tolerate
+            for k in range(1, n + 1, 2 if quick else 1):
+                add("dup-primary", dup=[k])
         for _ in range(25 if quick else 300):
             p = rng.range(3, 30)
             add("random%d" % p, [k for k in range(1, 3 * n) if rng.below(100) < p])
